@@ -1,18 +1,33 @@
 /-
-C03 — the XML reader's use of the builders, as a monitor on top of Model/XmlFmt.lean.
+C03 — the XML reader's use of the ChangesetDiscussionBuilder, as a monitor on top of
+Model/XmlFmt.lean.
 
-Model/XmlFmt.lean describes WHAT the XML reader builds (objects as values).  The real reader
-builds them through osmium::builder classes whose call protocol is only asserted, not enforced
-(osm_object_builder.hpp): `add_comment` must be followed by `add_comment_text` before the next
-`add_comment` / the destructor; `set_user(const char*)` asserts `strlen < 65535` and truncates the
-length to 16 bits.  `monitor` replays the reader's event loop (`XmlFmt.stepEv`) and reports the
-first violation of that protocol — each one is undefined behaviour in NDEBUG builds (a layout that
-Layout.decodeAll cannot traverse in bounds, or a write through `item_pos() - 1`) and a failed
-assertion (abort) in assertion-enabled builds.
+Model/XmlFmt.lean describes WHAT the XML reader builds (objects as values) and which exceptions it
+throws.  The real reader builds changeset discussions through
+`osmium::builder::ChangesetDiscussionBuilder` (osm_object_builder.hpp), whose call protocol is only
+ASSERTED, not enforced:
 
-xml_input_format.hpp: start_element `comment` → add_comment; end_element `text` → add_comment_text;
-start_element `tag` in <changeset> → m_changeset_discussion_builder.reset(); end_element `changeset`
-→ reset.  Core-only.
+  * `add_comment` must not be called while the previous comment has no text yet
+    (`assert(m_comment_offset == no_comment)`; NDEBUG: the previous comment stays unpadded and the
+    iteration over the discussion leaves the item),
+  * `add_comment_text` needs a pending comment (`assert(m_comment_offset != no_comment)`; NDEBUG:
+    `comment()` is computed from `item_pos() + size_t(-1)`: a write outside the item),
+  * both are called through `m_changeset_discussion_builder`, a unique_ptr that is null outside
+    `<discussion>` handling.
+
+`monitor` replays the reader's event loop (`XmlFmt.stepEv`) together with the builder object
+(`Proto`: does it exist, is a comment pending) and reports the first violation of the protocol.
+xml_input_format.hpp as repaired by 5690f83: start `discussion` → builder created (if absent);
+start `tag` in <changeset> / end `changeset` → builder destroyed (its destructor now finishes a
+pending comment with an empty text); start `comment` → add_comment, `m_comment_pending = true`;
+start `text` with `!m_comment_pending` → xml_error; end `text` → add_comment_text;
+end `comment` with `m_comment_pending` → add_comment_text("").
+When the reader throws (any exception of `stepEv`, e.g. std::length_error from add_comment's
+add_user — thrown AFTER the comment became pending) the builders are destroyed: no misuse.
+
+Props/C03Text.lean proves `monitor types evs = none` for EVERY event sequence and entity filter
+(`xml_reader_keeps_builder_protocol`), and keeps the three pre-repair witnesses (`Pre.monitor`).
+Core-only.
 -/
 import Osmium.Model.XmlFmt
 
@@ -21,102 +36,113 @@ namespace Osmium.HostileXml
 open Osmium.XmlFmt
 
 inductive Misuse where
-  /-- `add_comment` / `~ChangesetDiscussionBuilder` while the previous comment has no text:
-      the comment is left without padding (F13b) -/
-  | commentWithoutText
-  /-- `add_comment_text` without a pending comment (a second <text> in one <comment>):
-      `comment()` is computed from `m_comment_offset = size_t(-1)` -/
+  /-- `add_comment` while the previous comment has no text (F13b) -/
+  | commentWhilePending
+  /-- `add_comment_text` without a pending comment (a second <text> in one <comment>) -/
   | textWithoutComment
-  /-- `set_user` with 65535 or more bytes (F13c); `wraps` = the 16-bit user_size field ends up 0
-      (length ≡ 65535 mod 65536): the layout is broken in every build; otherwise NDEBUG builds
-      silently truncate the name and only assertion-enabled builds abort -/
-  | userTooLong (wraps : Bool)
-  /-- only in assertion-enabled builds: the parser is destroyed (after an error or at the end of a
-      truncated document) while a comment is pending — the destructor's assertion aborts -/
-  | pendingAtDestruction
+  /-- a call through the null `m_changeset_discussion_builder` -/
+  | noBuilder
   deriving Repr, DecidableEq
 
 def Misuse.name : Misuse → String
-  | .commentWithoutText => "ub:comment-without-text"
+  | .commentWhilePending => "ub:comment-while-pending"
   | .textWithoutComment => "ub:text-without-comment"
-  | .userTooLong true => "ub:user-too-long"
-  | .userTooLong false => "dbg:user-too-long"
-  | .pendingAtDestruction => "dbg:comment-pending-at-destruction"
+  | .noBuilder => "ub:no-discussion-builder"
 
-def attr (name : String) (attrs : List (String × Bytes)) : Option Bytes :=
-  attrs.foldl (fun acc a => if a.1 = name then some a.2 else acc) none
-
-/-- `set_user(const char*)` asserts `len < 65535` for OSMObjects and `len <= 65535` for changesets
-    (where 65535 already wraps the 16-bit user_size to 0) -/
-def userLimit : Nat := 65535
-
-/-- state of the discussion builder: `pending` = `m_comment_offset != no_comment` with the length
-    of the pending comment's user name; `broken` = an unpadded comment without text is already in
-    the buffer (NDEBUG builds only: assertion-enabled builds have aborted by then) -/
+/-- the discussion builder: `present` = `m_changeset_discussion_builder != nullptr`,
+    `pending` = its `m_comment_offset != no_comment` -/
 structure Proto where
-  pending : Option Nat := none
-  broken : Bool := false
+  present : Bool := false
+  pending : Bool := false
   deriving Repr, DecidableEq
 
-/-- a comment without text leaves the write position at `16 + user_size` behind the (8-aligned)
-    comment start; the next `new (ptr) ChangesetComment` there is misaligned (alignment 4) unless -/
-def nextAligned (userLen : Nat) : Bool := (16 + userLen + 1) % 4 == 0
+/-- `add_comment` -/
+def addComment (p : Proto) : Except Misuse Proto :=
+  if !p.present then .error .noBuilder
+  else if p.pending then .error .commentWhilePending
+  else .ok { p with pending := true }
 
-/-- what one event does to the builders.  `.error m` = undefined behaviour / abort happens NOW. -/
+/-- `add_comment_text` -/
+def addCommentText (p : Proto) : Except Misuse Proto :=
+  if !p.present then .error .noBuilder
+  else if !p.pending then .error .textWithoutComment
+  else .ok { p with pending := false }
+
+/-- the builder calls of ONE event that the reader processed without throwing (`st` = the reader
+    state before the event) -/
 def protoStep (types : Osmium.OplFmt.Types) (st : RSt) (p : Proto) : Ev → Except Misuse Proto
-  | .start name attrs =>
+  | .start name _ =>
+    if !types.changeset then .ok p else
     match st.stack with
-    | top :: _ =>
-      let isData := top == .osm || top == .osmChange || top == .createSection || top == .modifySection || top == .deleteSection
-      if isData && ((name = "node" && types.node) || (name = "way" && types.way) || (name = "relation" && types.relation)) then
-        match attr "user" attrs with
-        | some u => if u.length ≥ userLimit then .error (.userTooLong (u.length % 65536 == 65535)) else .ok p
-        | none => .ok p
-      else if (top == .osm || top == .osmChange) && name = "changeset" && types.changeset then
-        match attr "user" attrs with
-        | some u => if u.length ≥ userLimit then .error (.userTooLong (u.length % 65536 == 65535)) else .ok {}
-        | none => .ok {}
-      else if top == .changeset && name = "tag" && types.changeset then
-        -- m_changeset_discussion_builder.reset(): destructor
-        .ok { pending := none, broken := p.broken || p.pending.isSome }
-      else if top == .discussion && name = "comment" && types.changeset then
-        let ulen := ((attr "user" attrs).getD []).length
-        -- add_comment → add_user throws std::length_error AFTER m_comment_offset was set: the reader
-        -- reports the error, the builder is destroyed with a pending comment
-        if ulen > 1024 then .error .pendingAtDestruction else
-        match p.pending with
-        | some prev =>
-          if nextAligned prev then .ok { pending := some ulen, broken := true } else .error .commentWithoutText
-        | none => .ok { p with pending := some ulen }
+    | .changeset :: _ =>
+      if name = "discussion" then .ok { p with present := true }        -- make_unique if absent
+      else if name = "tag" then .ok {}                                  -- reset(): destructor
       else .ok p
+    | .discussion :: _ => if name = "comment" then addComment p else .ok p
+    | top :: _ =>
+      -- a new <changeset>: both builders are fresh
+      if (top == .osm || top == .osmChange) && name = "changeset" then .ok {} else .ok p
     | [] => .ok p
   | .stop _ =>
+    if !types.changeset then .ok p else
     match st.stack with
-    | .text :: _ =>
-      if types.changeset then (if p.pending.isSome then .ok { p with pending := none } else .error .textWithoutComment) else .ok p
-    | .changeset :: _ =>
-      if types.changeset then
-        -- the builders are destroyed, the object is committed and will be traversed
-        (if p.pending.isSome || p.broken then .error .commentWithoutText else .ok {})
-      else .ok p
+    | .text :: _ => addCommentText p
+    | .comment :: _ => if st.commentPending then addCommentText p else .ok p
+    | .changeset :: _ => .ok {}                                         -- reset(): destructor
     | _ => .ok p
   | .chars _ => .ok p
 
-/-- the reader's loop with the monitor running alongside.  Attribute parsing comes before the builder
-    call of the same event (`init_object` parses all attributes, then `set_user`; `check_attributes`
-    then `add_comment`), so when the reader throws on an event no builder call of THAT event has run.
-    After a throw (or at the end of a truncated document) the object is never committed: NDEBUG builds
-    are unharmed, assertion-enabled builds have aborted at the first violated assertion. -/
+/-- the reader's loop with the builder running alongside -/
 def monitorGo (types : Osmium.OplFmt.Types) : List Ev → RSt → Proto → Option Misuse
-  | [], _, p => if p.pending.isSome || p.broken then some .pendingAtDestruction else none
+  | [], _, _ => none                    -- end of input: destructors (a pending comment is finished)
   | e :: es, st, p =>
     match stepEv types st e with
-    | .error _ => if p.pending.isSome || p.broken then some .pendingAtDestruction else none
+    | .error _ => none                  -- exception: destructors
     | .ok st' =>
       match protoStep types st p e with
       | .error m => some m
       | .ok p' => monitorGo types es st' p'
 
 def monitor (types : Osmium.OplFmt.Types) (evs : List Ev) : Option Misuse := monitorGo types evs {} {}
+
+/-! ### the reader before repair 5690f83 (regression documentation)
+
+It had no `m_comment_pending`: a second `<text>` was accepted, `</comment>` never added a text, and
+the builder's destructor asserted instead of finishing a pending comment. -/
+
+namespace Pre
+
+inductive Misuse where
+  | commentWithoutText       -- add_comment / destructor while the previous comment has no text
+  | textWithoutComment       -- add_comment_text without pending comment (second <text>)
+  | pendingAtDestruction     -- exception / end of input while a comment is pending (assertion builds)
+  deriving Repr, DecidableEq
+
+/-- the events the OLD reader accepted where the current one differs: a second <text> -/
+def stepEvOld (types : Osmium.OplFmt.Types) (st : RSt) (e : Ev) : Except XErr RSt :=
+  match e, st.stack with
+  | .start name _, .comment :: _ => if name = "text" then .ok (push st .text) else .error .xml
+  | _, _ => stepEv types st e
+
+def monitorGo (types : Osmium.OplFmt.Types) : List Ev → RSt → Bool → Option Misuse
+  | [], _, pending => if pending then some .pendingAtDestruction else none
+  | e :: es, st, pending =>
+    match stepEvOld types st e with
+    | .error _ => if pending then some .pendingAtDestruction else none
+    | .ok st' =>
+      if !types.changeset then monitorGo types es st' pending else
+      match e, st.stack with
+      | .start name _, .discussion :: _ =>
+        if name = "comment" then (if pending then some .commentWithoutText else monitorGo types es st' true)
+        else monitorGo types es st' pending
+      | .start name _, .changeset :: _ =>
+        if name = "tag" && pending then some .commentWithoutText else monitorGo types es st' pending
+      | .stop _, .text :: _ => if pending then monitorGo types es st' false else some .textWithoutComment
+      | .stop _, .changeset :: _ => if pending then some .commentWithoutText else monitorGo types es st' false
+      | _, _ => monitorGo types es st' pending
+
+def monitor (types : Osmium.OplFmt.Types) (evs : List Ev) : Option Misuse := monitorGo types evs {} false
+
+end Pre
 
 end Osmium.HostileXml
